@@ -215,7 +215,7 @@ PROPS = {
     "C16": dict(
         modules=["Drpc.Props.C16", "Drpc.Tie.C16"],
         suites=["migrate"],
-        rule="migrate suite, real ListenMux / listener / prefixConn / HeaderConn over in-memory fakes: (mroute) one connection "
+        rule="(incl. re-registration: Route twice, Close then Route in one burst racing the closed listener's monitor — ops Q/q record which won —, families rereg / rereg-random, oracle live-route-receives) migrate suite, real ListenMux / listener / prefixConn / HeaderConn over in-memory fakes: (mroute) one connection "
              "through the running mux for EVERY split of streams <= 10 bytes (12 in thorough) into reads, prefix lengths "
              "{0,1,4,8}, registered / near-miss / truncated prefixes, final error attached or not, hostile read sizes of the "
              "acceptor, plus random route tables; (hdr) HeaderConn.Write from 2-3 goroutines with the underlying Write parked, "
